@@ -169,9 +169,18 @@ def classify(sc, inst: Instance, p_after: Procedure, kind: str, detail: dict):
         o = export.parse_outcome(sc.interp.run(name, detail["input"]))
     except Exception:
         return kind
-    if o[0] == "fails" and o[1] == err:
-        return kind if err == "AssertFail" else "callsite-fails:" + err
+    if o[0] == "fails":
+        return "derived-fails:AssertFail" if o[1] == "AssertFail" else "callsite-fails:" + o[1]
     return "body-fails:" + err if err != "AssertFail" else kind
+
+
+def _callsite_fails(sc, inst, p_after, detail):
+    try:
+        probe = callsite_probe(p_after, inst)
+        o = export.parse_outcome(sc.interp.run(sc.ref(probe), detail["input"]))
+        return o[0] == "fails"
+    except Exception:
+        return False
 
 
 def round_trip(sc, inst: Instance, p_after: Procedure, n_inputs=4):
@@ -185,7 +194,13 @@ def round_trip(sc, inst: Instance, p_after: Procedure, n_inputs=4):
     sc.reset()
     r = sc.compare(inst.p, p3, n_inputs=n_inputs)
     if r and r["kind"] != "unsupported":
-        out.append(("roundtrip-" + r["kind"], dict(r, direction="before->inline(after)")))
+        # the inlined call fails where the original ran: is it the call site of p_after that is illegal
+        # on this input (window outside its buffer / size / assertion)?  then it is that class of finding
+        k = classify(sc, inst, p_after, r["kind"], r)
+        if k.startswith("callsite-fails") or (k.endswith("AssertFail") and _callsite_fails(sc, inst, p_after, r)):
+            out.append((k, dict(r, direction="before->inline(after)", note="the call site of replace's result is illegal on this input")))
+        else:
+            out.append(("roundtrip-" + r["kind"], dict(r, direction="before->inline(after)")))
     r2 = sc.compare(p3, inst.p, n_inputs=n_inputs)
     if r2 and r2["kind"] != "unsupported":
         out.append(("roundtrip-rev-" + r2["kind"], dict(r2, direction="inline(after)->before")))
